@@ -198,6 +198,8 @@ fn down_reason(r: &Reason) -> crate::fsm::SessionDownReason {
 thread_local! {
     /// is the current case running on tokio's paused clock?
     static PAUSED: std::cell::Cell<bool> = const { std::cell::Cell::new(false) };
+    /// did a real-clock `wait` of the current run take much longer than it should?
+    static STALLED: std::cell::Cell<bool> = const { std::cell::Cell::new(false) };
 }
 
 struct World {
@@ -574,7 +576,13 @@ async fn run_glue(evs: Vec<Ev>, short: bool) -> String {
                     //  deadline from the advanced clock and is not reached, as in real time)
                     tokio::time::advance(Duration::from_millis(1250)).await;
                 } else {
+                    // real clock: if the machine stalled so long that a timer armed DURING this window
+                    // (1 s after an expiry at 1 s) could be due as well, the run says nothing: it is repeated
+                    let t0 = std::time::Instant::now();
                     tokio::time::sleep(Duration::from_millis(1250)).await;
+                    if t0.elapsed() > Duration::from_millis(1750) {
+                        STALLED.with(|p| p.set(true));
+                    }
                 }
                 settle().await;
             }
@@ -689,6 +697,30 @@ fn run_pure(ins: Vec<crate::gr::GrInput>) -> String {
 #[path = "/verif/harness/daemon/c10t.rs"]
 mod tcp;
 
+/// A runtime per case; when the machine is short of descriptors for a moment this waits instead of panicking.
+fn build_rt(io: bool, paused: bool) -> tokio::runtime::Runtime {
+    let mut tries = 0;
+    loop {
+        let mut b = tokio::runtime::Builder::new_current_thread();
+        if io {
+            b.enable_all();
+        } else {
+            b.enable_time();
+        }
+        b.start_paused(paused);
+        match b.build() {
+            Ok(rt) => return rt,
+            Err(e) => {
+                tries += 1;
+                if tries > 600 {
+                    panic!("cannot create a runtime: {e}");
+                }
+                std::thread::sleep(Duration::from_millis(100));
+            }
+        }
+    }
+}
+
 fn run_case(line: &str) -> String {
     let Some(t) = Term::parse(line) else {
         return "(bad-case)".into();
@@ -700,17 +732,34 @@ fn run_case(line: &str) -> String {
         if !tcp::tcp_ok(&evs) {
             return "(bad-case)".into();
         }
-        let rt = tokio::runtime::Builder::new_current_thread()
-            .enable_all()
-            .build()
-            .unwrap();
-        let out = rt.block_on(async {
-            match tokio::time::timeout(Duration::from_secs(60), tcp::run_tcp(evs)).await {
-                Ok(s) => s,
-                Err(_) => "(tcp-timeout)".into(),
+        drop(evs);
+        // A busy machine must not turn into a wrong observation: a case that could not set its sockets up
+        // or ran out of time is run again (the daemon side is deterministic, the result is the same).
+        let mut out = String::new();
+        for attempt in 0..4u64 {
+            if attempt > 0 {
+                std::thread::sleep(Duration::from_millis(500 * attempt));
             }
-        });
-        rt.shutdown_background();
+            let evs = t
+                .tagged("glue-tcp")
+                .unwrap()
+                .iter()
+                .map(ev_of)
+                .collect::<Option<Vec<_>>>()
+                .unwrap();
+            let rt = build_rt(true, false);
+            out = rt.block_on(async {
+                match tokio::time::timeout(Duration::from_secs(400), tcp::run_tcp(evs)).await {
+                    Ok(s) => s,
+                    Err(_) => "(tcp-timeout)".into(),
+                }
+            });
+            rt.shutdown_timeout(Duration::from_millis(200));
+            if !(out.starts_with("(tcp-timeout") || out.starts_with("(tcp-setup-failed")) {
+                break;
+            }
+            eprintln!("verif harness: tcp case attempt {attempt} failed to set up: {out}");
+        }
         return out;
     }
     // `glue-short`: 1 s timers on tokio's PAUSED clock: `wait` advances it by 1.25 s, the real timer tasks
@@ -725,13 +774,30 @@ fn run_case(line: &str) -> String {
         if !short && evs.iter().any(|e| matches!(e, Ev::Wait)) {
             return "(bad-case)".into();
         }
-        let rt = tokio::runtime::Builder::new_current_thread()
-            .enable_time()
-            .start_paused(short && !real)
-            .build()
-            .unwrap();
         PAUSED.with(|p| p.set(short && !real));
-        rt.block_on(run_glue(evs, short))
+        if !real {
+            let rt = build_rt(false, short);
+            return rt.block_on(run_glue(evs, short));
+        }
+        drop(evs);
+        let mut out = String::new();
+        for _ in 0..6 {
+            let evs = t
+                .tagged("glue-real")
+                .unwrap()
+                .iter()
+                .map(ev_of)
+                .collect::<Option<Vec<_>>>()
+                .unwrap();
+            STALLED.with(|p| p.set(false));
+            let rt = build_rt(false, false);
+            out = rt.block_on(run_glue(evs, true));
+            if !STALLED.with(|p| p.get()) {
+                break;
+            }
+            eprintln!("verif harness: real-clock case repeated (the machine stalled during a wait)");
+        }
+        out
     } else if let Some(ins) = t.tagged("pure") {
         let Some(ins) = ins.iter().map(gin_of).collect::<Option<Vec<_>>>() else {
             return "(bad-case)".into();
@@ -754,9 +820,22 @@ fn verif_main() {
     if prop != "C10" {
         return;
     }
-    std::panic::set_hook(Box::new(|_| {}));
+    // the first few panics are reported on stderr (a case that panics is `(panic)` in the output)
+    static PANICS: std::sync::atomic::AtomicUsize = std::sync::atomic::AtomicUsize::new(0);
+    std::panic::set_hook(Box::new(|info| {
+        if PANICS.fetch_add(1, std::sync::atomic::Ordering::Relaxed) < 5 {
+            let fds = std::fs::read_dir("/proc/self/fd").map(|d| d.count()).unwrap_or(0);
+            let threads = std::fs::read_dir("/proc/self/task").map(|d| d.count()).unwrap_or(0);
+            eprintln!("verif harness panic: {info} [open fds {fds}, threads {threads}]");
+        }
+    }));
     sexp::run_lines(&inp, &out, |l| {
         let l = l.to_string();
         std::panic::catch_unwind(move || run_case(&l)).unwrap_or_else(|_| "(panic)".into())
     });
+    if std::env::var("VERIF_DIAG").is_ok() {
+        let fds = std::fs::read_dir("/proc/self/fd").map(|d| d.count()).unwrap_or(0);
+        let threads = std::fs::read_dir("/proc/self/task").map(|d| d.count()).unwrap_or(0);
+        eprintln!("verif harness end: open fds {fds}, threads {threads}");
+    }
 }
